@@ -139,6 +139,8 @@ class Kernel:
 
     def fresh(self, x, scale):
         x = np.array(x, dtype=float)
+        if self.c.get("int_start") and np.all(x == np.round(x)):
+            x = x.astype(int)       # an integer-typed start array (np.array([1, 0, 2])) is an ordinary way to write a start value
         if self.iface == "experimental":
             s = self.cls(self.dist, scale=copy.deepcopy(scale), initial_point=x.copy())
             s.initialize()
@@ -210,7 +212,10 @@ def mh_cases(draw, tier="quick", samplers=("MH", "PCN", "MALA")):
          "scale": draw(st.sampled_from([0.05, 0.2, 0.5, 0.9])) if sampler != "MALA" else draw(st.sampled_from([0.01, 0.05, 0.2])),
          "history": draw(st.sampled_from(["fresh", "fresh", "warmup", "reload", "rescaled"])), "hseed": draw(st.integers(0, 10 ** 6)),
          "u_mode": draw(st.sampled_from(["above", "below", "generated"])), "delta": draw(st.sampled_from([1e-9, 1e-6, 1e-3, 1e-1])),
-         "u": draw(st.floats(1e-6, 1 - 1e-6)), "bad_value": draw(st.sampled_from(["nan", "-inf"]))}
+         "u": draw(st.floats(1e-6, 1 - 1e-6)), "bad_value": draw(st.sampled_from(["nan", "-inf"])),
+         "int_start": draw(st.sampled_from([False, False, False, True]))}
+    if c["int_start"]:
+        c["x"] = [float(round(v)) for v in c["x"]]
     if sampler == "PCN":
         m = draw(st.integers(1, 4))
         c.update(pm=m, pA=draw(gen.mat(4, 5, -1, 1)), pcc=0.5, pmodel=draw(st.sampled_from(["linear", "nonlinear"])),
